@@ -2196,6 +2196,11 @@ func extractMetadataOffsets(
 			return err
 		}
 
+		if txIdx > math.MaxUint32 {
+			// No transaction has this index; truncating it would attribute
+			// the entry to an unrelated transaction
+			continue
+		}
 		// #nosec G115 -- transaction index bounded by block size, Cardano block segments are <<4GiB
 		result[uint32(txIdx)] = struct {
 			offset uint32
